@@ -620,7 +620,10 @@ def rule_syntaxlabel(ctx, rep, rid="R-C05-syntaxlabel"):
     the same token value."""
     r = rep.rule(rid, "the P0002 label and its message are taken from one token: in parse_library's error mapping all Token fields read (span, text, "
                       "token_type) have the same root value", floor=1)
-    bodies = [b for b in ctx.prog.bodies.values() if norm(b.id).startswith("ironplc_parser::parser::parse_library")]
+    # the error mapping: whatever parse_library calls outside the generated grammar (today a closure; a helper function is the same thing)
+    reach = {norm(k) for k in ctx.prog.reachable_from(ctx.prog.get("ironplc_parser::parser::parse_library") or [])}
+    bodies = [b for b in ctx.prog.bodies.values() if b.f["crate"] == "ironplc_parser" and not norm(b.id).startswith("ironplc_parser::parser::plc_parser::")
+              and (norm(b.id).startswith("ironplc_parser::parser::parse_library") or norm(b.id) in reach)]
     found = False
     for b in sorted(bodies, key=lambda x: x.id):
         ls = [c for c in b.calls() if c.callee == "ironplc_dsl::diagnostic::Label::span"]
